@@ -2,6 +2,8 @@ package types
 
 import (
 	"fmt"
+
+	"github.com/ethereum/go-ethereum/common"
 )
 
 // NewGenesisState creates a new genesis state
@@ -21,23 +23,32 @@ func DefaultGenesisState() *GenesisState {
 
 // Validate performs basic genesis state validation returning an error upon any failure
 func (gs GenesisState) Validate() error {
-	seenErc20 := make(map[string]bool)
+	seenErc20 := make(map[common.Address]bool)
 	seenDenom := make(map[string]bool)
 
 	for _, b := range gs.TokenPairs {
-		if seenErc20[b.ERC20Address] {
-			return fmt.Errorf("token ERC20 contract duplicated on genesis '%s'", b.ERC20Address)
-		}
-		if seenDenom[b.Denoms[0]] {
-			return fmt.Errorf("coin denomination duplicated on genesis: '%s'", b.Denoms[0])
+		if len(b.Denoms) == 0 {
+			return fmt.Errorf("token pair without coin denomination on genesis '%s'", b.ERC20Address)
 		}
 
 		if err := b.Validate(); err != nil {
 			return err
 		}
 
-		seenErc20[b.ERC20Address] = true
-		seenDenom[b.Denoms[0]] = true
+		// the registry is indexed by the contract address, not by the way it is spelled
+		erc20 := b.GetERC20Contract()
+		if seenErc20[erc20] {
+			return fmt.Errorf("token ERC20 contract duplicated on genesis '%s'", b.ERC20Address)
+		}
+		seenErc20[erc20] = true
+
+		// every denomination of a pair gets an index entry, not only the first one
+		for _, denom := range b.Denoms {
+			if seenDenom[denom] {
+				return fmt.Errorf("coin denomination duplicated on genesis: '%s'", denom)
+			}
+			seenDenom[denom] = true
+		}
 	}
 
 	return gs.Params.Validate()
